@@ -1868,7 +1868,55 @@ theorem xstep_inputs_untouched (s : XState) (op : XOp) (h : matOpOf op = none) (
       cases mk with
       | none => simp
       | some k => cases hk : s.maps[k]? <;> simp [hk]
+  | scoreNoMap j store w =>
+    simp only [stepX]
+    cases s.objs[j]? with
+    | none => simp
+    | some o => cases store <;> simp
+  | scoreForeign j k => simp only [stepX]; cases s.objs[j]? <;> cases s.mats[k]? <;> simp
   | dump j name => simp only [stepX]; cases s.objs[j]? <;> simp
+
+namespace Aux
+theorem post_head : ∀ t : T, ∃ i x l s rest, post t = T.node i x l s [] :: rest
+  | .node i x l s [] => ⟨i, x, l, s, [], by simp [post, postL]⟩
+  | .node i x l s (c :: cs) => by
+    obtain ⟨i', x', l', s', rest, h⟩ := post_head c
+    exact ⟨i', x', l', s', rest ++ postL cs ++ [.node i x l s (c :: cs)], by simp [post, postL, h]⟩
+end Aux
+
+/-- **`parsimony_score` refuses a matrix of another taxon namespace before it reads or writes anything** (entry-point glue: the
+`TaxonNamespaceIdentityError` test is the first statement). -/
+theorem xstep_foreign_namespace_refused (s : XState) (j k : Nat) (o : Obj) (mo : MatObj) (hobj : s.objs[j]? = some o)
+    (hmat : s.mats[k]? = some mo) : stepX s (.scoreForeign j k) = (s, .err .nsError) := by
+  simp [stepX, hobj, hmat]
+
+/-- **Without a map and without an attribute store there is nothing to score** (`fitch_down_pass(nodes, state_sets_attr_name=None,
+taxon_state_sets_map=None)`): on every tree the first node of the post-order is a leaf, whose sets can come from nowhere — the call
+is refused and changes nothing. -/
+theorem xstep_nomap_nostore_refused (s : XState) (j : Nat) (w : Option (List Nat)) (o : Obj) (hobj : s.objs[j]? = some o) :
+    stepX s (.scoreNoMap j none w) = (s, .err .typeError) := by
+  obtain ⟨i, x, l, s', rest, h⟩ := post_head o.tree
+  simp [stepX, hobj, parsimonyNP, h, runNodesNP, stepNodeN, T.cs, getAttr]
+
+/-- **`fitch_up_pass` refuses an internal non-root node that is not binary** (`assert(len(c) == 2)`): a unary node or a polytomy below
+the root stops the pass with what was written so far; a polytomy AT the root (the usual unrooted form) is skipped like any root. -/
+theorem upStep_refuses_nonbinary (m : Option Matrix) (attrs : Attrs) (p : Nat) (nd : T) (h0 : nd.cs ≠ [])
+    (h2 : nd.cs.length ≠ 2) : upStep m attrs (some p) nd = .error .assertError := by
+  cases nd with
+  | node i x l s cs =>
+    cases cs with
+    | nil => simp [T.cs] at h0
+    | cons c cs =>
+      cases cs with
+      | nil => simp [upStep, T.cs]
+      | cons c2 cs =>
+        cases cs with
+        | nil => simp [T.cs] at h2
+        | cons c3 cs => simp [upStep, T.cs]
+
+theorem upStep_skips_root (m : Option Matrix) (attrs : Attrs) (nd : T) : upStep m attrs none nd = .ok attrs := by
+  cases nd with
+  | node i x l s cs => cases cs <;> simp [upStep, T.cs]
 
 /-- **The machines the driver runs compute the per-character recursion** (`parsimonyP` = the down pass with its attribute store,
 `upPass` = `fitch_up_pass` over the pre-order with parent pointers).  On a fully bifurcating tree with distinct nodes whose leaves all
@@ -1923,6 +1971,30 @@ theorem up_pass_exact {m : Matrix} {n : Nat} {t : T} {bv : BV} (hv : View m t bv
     exact up_pass_mpr (col c bv) ((view_rect hv hm).2 c hc) p (col c ba) (col c bb)
       (by rw [esub c]; rfl) _ (g3 c hc) s
 
+/-- **A down pass without a map repeats the score of the pass that left the sets** (`fitch_down_pass(nodes, taxon_state_sets_map=None,
+weights=w)`, "the leaves must already carry their state sets").  After a scoring call with matrix `m` and weight list `w` on a fully
+bifurcating tree with distinct nodes (whatever attributes the nodes carried before it), the same pass without a map, on the same
+attribute store and with the same weights, succeeds, returns the same score and leaves every attribute as it was: in this mode the
+result is a function of the tree and of the data of the LAST pass that wrote the store.  (Stated for a given weight list; with
+`weights=None` the two passes are compared with the code only.) -/
+theorem nomap_after_score {m : Matrix} {n : Nat} {t : T} {bv : BV} (hv : View m t bv) (hm : RectM m n) (hid : (ids t).Nodup)
+    (w : List Nat) (hw : n ≤ w.length) (attrs0 : Attrs) :
+    ∃ st st', parsimonyP m (some w) attrs0 t = (st, none) ∧ parsimonyNP (some w) st.attrs t = (st', none) ∧
+      st'.score = st.score ∧ ∀ j, getAttr st'.attrs j = getAttr st.attrs j := by
+  obtain ⟨st, hp, _⟩ := call_spec (.rooted hv) hm hid (some w) (by simpa [WOk] using hw) attrs0
+  have hpp : parsimonyP m (some w) attrs0 t = (st, none) := by
+    have := parsimonyP_spec m (some w) attrs0 t
+    rw [hp] at this
+    rcases hq : parsimonyP m (some w) attrs0 t with ⟨st', _ | e⟩
+    · rw [hq] at this; simp only [Except.ok.injEq] at this; rw [this]
+    · rw [hq] at this; cases this
+  obtain ⟨hst, _, hsc⟩ := down_stored (ws := w) hv hid _ st (by simpa [parsimony, weightsOf] using hp)
+  obtain ⟨st', hr, heq, hc⟩ := nomap_run (ws := w) hw bv t st.attrs hst (view_rect hv hm).1
+    { attrs := st.attrs, score := 0, bychar := [] } (fun _ => rfl)
+  refine ⟨st, st', hpp, by simpa [parsimonyNP] using hr, ?_, heq⟩
+  simp only at hsc hc
+  omega
+
 /-! ### the new hypotheses are satisfiable; the up pass computes -/
 
 /-- one character on `((A, C), (A, (A, G)))` with `A = 1`, `C = 2`, `G = 4` -/
@@ -1944,6 +2016,11 @@ example : (match (parsimonyP exMatrix none [(1, [9, 9])] exTree) with
         [some [1, 7], some [3, 3], some [1, 3], some [2, 3], some [1, 4]]
     | _ => false) = true := by decide
 example : subT exTree [false] = some (.node 1 none none none [.node 2 (some 0) none none [], .node 3 (some 1) none none []]) := rfl
+example : (runXHist { objs := [], mats := [], maps := [] }
+    [.newTree exTri, .scoreNoMap 0 none none, .scoreNoMap 0 (some 0) none, .score 0 (.lit exMatrix) (some 0) (some [2, 5]),
+     .scoreNoMap 0 (some 0) (some [2, 5]), .scoreNoMap 0 (some 0) none, .up 0 0 none]).map
+    (fun r => match r with | .ok sc _ => some sc | _ => none) = [none, none, none, some 7, some 7, some 2, none] := by decide
+example : (T.node 0 none none none [exTree, exTree, exTree]).cs.length ≠ 2 := by decide
 example : (ids exTree).Nodup ∧ srcMatrix { objs := [], mats := [], maps := [exMatrix] } (.map 0) = some exMatrix := by decide
 
 end DendroModel.C16
